@@ -118,6 +118,11 @@ func (l *listener) listenLoop() {
 					_ = conn.Close()
 					return
 				case l.backlog <- conn:
+					if atomic.LoadUint32(&l.closed) == 1 {
+						// Close may already have drained the backlog: nobody would ever accept or close this conn
+						l.drainBacklog()
+						return
+					}
 				}
 			}
 		}()
@@ -153,6 +158,12 @@ func (l *listener) Close() (err error) {
 	l.sessions = map[*Session]*sync.WaitGroup{}
 	l.mu.Unlock()
 	// nobody will accept what is still queued; release the references those conns hold
+	l.drainBacklog()
+	return
+}
+
+// drainBacklog closes every conn that is still queued (only used once the listener is closed)
+func (l *listener) drainBacklog() {
 	for {
 		select {
 		case conn := <-l.backlog:
@@ -160,9 +171,8 @@ func (l *listener) Close() (err error) {
 			continue
 		default:
 		}
-		break
+		return
 	}
-	return
 }
 
 // Addr is forwarded to the raw listener
